@@ -465,6 +465,16 @@ class C05(core.Check):
                 msgs.append("no event reported for a non-empty input")
             if not (len(rest) < len(stream) and stream[len(stream) - len(rest):] == rest):
                 msgs.append("remaining codes are not a proper suffix of the input (not consumed left to right / no progress)")
+            if case.get("whole") is not None and not msgs:
+                # the whole input is one ESC+key form with documented names: everything consumed, exactly these events
+                if rest:
+                    msgs.append(f"documented decoding: {len(rest)} codes left over after an ESC + complete key sequence")
+                else:
+                    m = match_expect(case["whole"], res["ok"])
+                    if m:
+                        msgs.append("documented decoding (ESC followed by a key sequence whose name already carries "
+                                    "a meta modifier stays a separate 'esc'): " + m)
+                return msgs
             segs = case.get("segs")
             if segs and not msgs and len(segs[0]) == 2 and segs[0][1] is not None:
                 # the first documented sequence is reported exactly once and nothing after it is touched
@@ -653,6 +663,17 @@ class C05(core.Check):
                     yield self.pk(enc, more, codes, "table", [seg])
                     if more or tier != "quick":
                         yield self.pk(enc, more, codes + [120], "table", [seg, [[120], ["k", "x"]]])
+            # ESC in front of every table sequence (the "ESC+key" meta form: 'meta <name>', or a separate 'esc' when the
+            # name is 'esc' or already contains 'meta ' anywhere, e.g. 'shift meta up'); judged by the correspondence
+            yield self.pk(encs[i % 3], i % 2, [27] + codes, "esc-table")
+            if "meta " in name:
+                for enc in encs:
+                    for more in (0, 1):
+                        c = self.pk(enc, more, [27] + codes, "esc-table")
+                        if seg[1] != "*1":
+                            c["whole"] = [["k", "esc"], seg[1]]
+                        yield c
+                        yield self.pk(enc, more, [27] + codes + [120], "esc-table")
             # every proper prefix: pending with more, something without raising otherwise
             for k in range(1, len(codes)):
                 yield self.pk(encs[i % 3], 1, codes[:k], "table-prefix")
